@@ -398,6 +398,9 @@ class SeriesVal:
             return self.derive(sel=lambda i: z3.And(self._sel(i), _zb(k.at(i))))
         raise Unsupported("series[...] with non-mask key")
 
+    def to_numpy(self, *a, **k):
+        return self  # the values as an array: used as a positional mask over the same rows
+
     @property
     def loc(self):
         return _Loc(self)
@@ -480,6 +483,12 @@ class _Loc:
             mask, cols = k
             sub = self.s.pyvc_getitem(I, mask)
             return sub.pyvc_getitem(I, cols) if cols is not None else sub
+        if isinstance(k, LabelSel):
+            # obj.loc[labels]: LABEL based - every row whose label is one of the requested labels (pandas returns all rows carrying a
+            # requested label, once per request; as a SET of rows this is the axiom below - multiplicities are not modelled)
+            s = self.s
+            j = _i("j")
+            return s.derive(sel=lambda i: z3.And(s._sel(i), z3.Exists([j], z3.And(k.sel(j), s.label(j) == s.label(i)))))
         return self.s.pyvc_getitem(I, k)
 
 
@@ -532,6 +541,13 @@ class IndexVal:
 
         return pd.Index
 
+    def pyvc_getitem(self, I, k):
+        """index[mask]: the labels of the selected rows (a selection of positions whose labels are what matters downstream)"""
+        if isinstance(k, SeriesVal):
+            o = self.owner
+            return LabelSel(o, lambda i: z3.And(o.sel(i), _zb(k.at(i))))
+        raise Unsupported("index[...] with non-mask key")
+
     def duplicated(self, keep="first"):
         o = self.owner
 
@@ -566,6 +582,15 @@ class IndexVal:
         o = self.owner
         i, j = _i("i"), _i("j")
         return SBool(z3.ForAll([i, j], z3.Implies(z3.And(o.sel(i), o.sel(j), i < j), o.label(i) != o.label(j))))
+
+
+class LabelSel:
+    """index[mask]: labels of a sub-selection of rows of `owner`"""
+
+    __pyvc_symbolic__ = True
+
+    def __init__(self, owner, sel):
+        self.owner, self.sel = owner, sel
 
 
 class LabelSeries:
